@@ -381,11 +381,17 @@ def resolve_spec(spec, c):
 
 # ----------------------------------------------------------------------------------------------------
 # the model
-def run_model(jobs, fixed=False, timeout=600):
+# the variant of internal_cursors.py the code under test has: (wrap_fixed, move_asserts); set by props/C06.py
+VARIANT = [(False, True)]
+
+
+def run_model(jobs, fixed=None, timeout=600):
     """jobs: list of (spec, [edit...], [cursor...]) -> list of parsed result s-expressions"""
     lines = []
+    v = VARIANT[0] if fixed is None else fixed
+    vs = "v" + ("1" if v[0] else "0") + ("1" if v[1] else "0")
     for spec, edits, cursors in jobs:
-        lines.append(common.sexp(["1" if fixed else "0", spec_sexp(spec), [edit_sexp(e) for e in edits],
+        lines.append(common.sexp([vs, spec_sexp(spec), [edit_sexp(e) for e in edits],
                                   [cursor_sexp(c) for c in cursors]]))
     p = subprocess.run([str(DRIVER)], input="\n".join(lines) + "\n", stdout=subprocess.PIPE,
                        stderr=subprocess.PIPE, text=True, timeout=timeout)
